@@ -204,3 +204,44 @@ Definition g_recur_fetch_forward {DT : Type} (self_freq : freq) (self_interval :
   | None =>
     (RRaise ValueError)
   end.
+
+(* calgebra/recurrence.py: RecurringPattern._fetch_reverse *)
+Definition g_recur_fetch_reverse (fuel : nat) (self_freq : freq) (fetch_forward : Z -> Z -> list ivl) (start : option Z) (end_ : option Z) : res (list ivl) :=
+  match end_ with
+  | Some end_ =>
+    let chunk_size :=
+      if (freq_eqb self_freq Daily) then
+        let chunk_size := (30 * 86400) in
+        chunk_size
+      else
+        if (freq_eqb self_freq Weekly) then
+          let chunk_size := (12 * 604800) in
+          chunk_size
+        else
+          if (freq_eqb self_freq Monthly) then
+            let chunk_size := (365 * 86400) in
+            chunk_size
+          else
+            let chunk_size := ((5 * 365) * 86400) in
+            chunk_size in
+    let current_end := end_ in
+    let effective_start := (match start with Some start => start | None => (end_ - ((10 * 365) * 86400)) end) in
+    run_while fuel
+      (fun current_end => (current_end >? effective_start))
+      (fun current_end =>
+        let out := @nil ivl in
+        let chunk_start := (Z.max effective_start (current_end - chunk_size)) in
+        let chunk := (filter (fun ivl_ => ((((ozd (st ivl_)) <? current_end) || (current_end =? end_)) && (((ozd (st ivl_)) >=? chunk_start) || (chunk_start =? effective_start)))) (fetch_forward chunk_start current_end)) in
+        let out := out ++ (rev chunk) in
+        let current_end := chunk_start in
+        if ((negb (is_none start)) && (current_end <=? (ozd start))) then
+          (out, current_end, Brk)
+        else
+          (out, current_end, Cont))
+      (fun current_end =>
+        let out := @nil ivl in
+        out)
+      current_end
+  | None =>
+    (RRaise ValueError)
+  end.
